@@ -11,6 +11,9 @@ CHECKS = {
                 text="For every TLC-generated derivation the real parser's tree (projected by a harness-owned walker) must equal the derivation event sequence, every node span must run from its first to its last token, decoded values must equal the specification's (escape decoding and BlockStringValue are TLA+ operators), and the spanned text must re-parse to an equal node; repository fixtures' trees are judged by GqlGrammarTrace with events.",
                 note="Same trusted base as C01; Document spans (0, len) are accepted as SOF..EOF."),
 }
+CHECKS["C03"] = dict(design="4/C03", technique="TLC-generated derivation corpus replayed through parse -> print -> re-lex; printed token sequence + original derivation kinds judged by the TLA+ grammar machine (GqlGrammarTrace); re-parse equality, idempotence",
+    text="Every TLC-generated grammar skeleton (both dialects, focused interiors) is concretised with string contents that stress the printer, parsed, printed under several indent settings, and the printed text must (i) be a sentence of the TLA+ grammar whose derivation has exactly the original node kinds (judged by TLC on real-lexer tokens), (ii) re-parse to an equal tree up to positions, (iii) print again to the same text, never raising.",
+    note="Same trusted base as C01/C02 (the lexer used to tokenise printed text is verified by them). String contents are a fixed pool (harness/corpus.py, harness/printreplay.py).")
 NOT_YET = {
 }
 
